@@ -27,7 +27,7 @@ ST = r"^storage::"
 ZL = r"^zalsa_local::"
 
 
-@ob("C20.2", ["C20", "C23"], "obtaining &mut Zalsa while another handle still exists (or before readers were told to cancel) lets a write race with readers of the old revision", kind="ORDER+ONLYIF")
+@ob("C20.2", ["C20"], "obtaining &mut Zalsa while another handle still exists (or before readers were told to cancel) lets a write race with readers of the old revision", kind="ORDER+ONLYIF")
 def c20_2(cx):
     """cancel_others: CancellationFlagGuard::new precedes the wait; the wait loop exits only if *clones == 1; the exit precedes Arc::get_mut(..).unwrap() which precedes bump_cancellation_count; an overflow forces new_revision. Arc::<Zalsa>::get_mut is called nowhere else. StorageHandle drops zalsa_impl before coordinate; Clone increments the count; CoordinateDrop decrements and notify_all; zalsa_mut always goes through cancel_others."""
     b = cx.fn(ST + r"Storage::<Db>::cancel_others$")
